@@ -10,6 +10,7 @@
 // Phase 3 (C07, exit status 5): keys are set, removed, restarted and reset (with condition callbacks) at random; then every
 // key is removed.  Oracle: "when a key is removed the running instance's context is cancelled and nothing for that key
 // is started again": 3 s later no instance is inside its routine.
+// Phase 4 (C07, exit status 5): calls queued behind a long critical section in a chosen order (see there).
 // Phase 2 (C06, exit status 6): a KeyedRefCount; goroutines take a reference on a random key, check that GetKey reports
 // the key while they hold the reference, release it (sometimes twice).  Oracle: a reference-counted key is present while
 // at least one unreleased reference exists; when every reference is released the key set is empty.
@@ -165,7 +166,18 @@ func TestKeyedFree(t *testing.T) {
 			Constant: &ubackoff.Constant{Interval: 1}}))
 		ctx, cancel := context.WithCancel(context.Background())
 		k.SetContext(ctx, true)
-		yes := func(int, int) bool { runtime.Gosched(); return true }
+		// the condition callbacks run under the Keyed's mutex: now and then one takes 2 ms, which drives the mutex into
+		// its starvation mode (FIFO hand-off to the waiters), so that whoever unlocks and locks again queues BEHIND the
+		// calls that were waiting: a check-then-act spread over two sections gets somebody else in between
+		var nyes atomic.Int64
+		yes := func(int, int) bool {
+			if nyes.Add(1)%64 == 0 {
+				time.Sleep(2 * time.Millisecond)
+			} else {
+				runtime.Gosched()
+			}
+			return true
+		}
 		var wg sync.WaitGroup
 		stop := time.Now().Add(dur / 3)
 		var ops atomic.Int64
@@ -213,6 +225,95 @@ func TestKeyedFree(t *testing.T) {
 		}
 		cancel()
 		k.ClearContext()
+	}
+
+	// ---- phase 4: calls queued behind a long critical section in a chosen order (C07)
+	// A condition callback of RestartRoutine("hold") keeps the Keyed's mutex for several milliseconds; meanwhile a first
+	// call X on key 0 (the retry timer callback of a routine that just failed, or RestartRoutine / ResetRoutine / SetKey)
+	// and then RemoveKey(0) block on the mutex.  Waiting for more than a millisecond puts sync.Mutex into starvation
+	// mode: strict FIFO hand-off.  X therefore runs first and RemoveKey directly after X's first Unlock - if X spreads a
+	// check and the act over two sections, RemoveKey lands between them.  Oracle: an instance of key 0 never enters its
+	// function with a live context while key 0 is not in the set.
+	if want == 0 || want == 5 {
+		trials, late := 0, ""
+		stop := time.Now().Add(dur / 4)
+		for i := 0; time.Now().Before(stop) && late == ""; i++ {
+			trials++
+			var runs atomic.Int32
+			var kp atomic.Pointer[keyed.Keyed[int, int]]
+			var lateStart atomic.Bool
+			k := keyed.NewKeyed[int, int](func(key int) (keyed.Routine, int) {
+				if key != 0 {
+					return func(ctx context.Context) error { <-ctx.Done(); return nil }, key
+				}
+				return func(ctx context.Context) error {
+					runs.Add(1)
+					if kk := kp.Load(); kk != nil {
+						if _, ok := kk.GetKey(0); !ok && ctx.Err() == nil {
+							lateStart.Store(true)
+						}
+					}
+					return errors.New("fails")
+				}, key
+			}, keyed.WithRetry[int, int](&ubackoff.Backoff{BackoffKind: ubackoff.BackoffKind_BackoffKind_CONSTANT, Constant: &ubackoff.Constant{Interval: 2}}))
+			kp.Store(k)
+			ctx, cancel := context.WithCancel(context.Background())
+			k.SetContext(ctx, false)
+			k.SetKey(1, true)
+			k.SetKey(0, true) // fails at once; its retry timer fires in 2 ms
+			for t0 := time.Now(); runs.Load() < 1 && time.Since(t0) < time.Second; {
+				time.Sleep(20 * time.Microsecond)
+			}
+			holding, release, holdDone := make(chan struct{}), make(chan struct{}), make(chan struct{})
+			go func() {
+				first := true
+				k.RestartRoutine(1, func(int, int) bool {
+					if first {
+						first = false
+						close(holding)
+						<-release
+					}
+					return false
+				})
+				// re-take the mutex at once and keep it until the woken waiter has failed to get it
+				k.RestartRoutine(1, func(int, int) bool { time.Sleep(time.Millisecond); return false })
+				close(holdDone)
+			}()
+			<-holding
+			var wg sync.WaitGroup
+			wg.Add(1)
+			go func() { defer wg.Done(); k.GetKeys() }()
+			switch i % 4 {
+			case 0: // X = the retry timer callback: it fires while the mutex is held
+			case 1:
+				wg.Add(1)
+				go func() { defer wg.Done(); k.RestartRoutine(0) }()
+			case 2:
+				wg.Add(1)
+				go func() { defer wg.Done(); k.ResetRoutine(0) }()
+			case 3:
+				wg.Add(1)
+				go func() { defer wg.Done(); k.SetKey(0, true) }()
+			}
+			time.Sleep(4 * time.Millisecond)
+			wg.Add(1)
+			go func() { defer wg.Done(); k.RemoveKey(0) }()
+			time.Sleep(2 * time.Millisecond)
+			close(release)
+			<-holdDone
+			wg.Wait()
+			time.Sleep(5 * time.Millisecond)
+			k.ClearContext()
+			cancel()
+			if lateStart.Load() {
+				late = fmt.Sprintf("trial %d (X = %s): an instance of key 0 entered its function with a live context while key 0 is not in the set (RemoveKey had run)",
+					i, []string{"retry timer callback", "RestartRoutine", "ResetRoutine", "SetKey"}[i%4])
+			}
+		}
+		stats["free.c07.queued_behind_long_section_trials"] = trials
+		if late != "" {
+			freeReport(5, late, stats)
+		}
 	}
 
 	// ---- phase 2: a referenced key is present (C06)
